@@ -211,6 +211,9 @@ def explore(case):
       out = []
       for e in trace:
         out.append(('crash', e['i']))
+        if e.get('pending'):
+          # data written but not yet flushed/closed is lost with the process
+          out.append(('crash_lose', e['i']))
         if e['kind'] == 'write':
           n = e['nbytes']
           ps = range(0, n + 1) if depth <= case.get('all_prefixes_depth', 0) else sorted({0, 1, n // 2, n - 1, n})
@@ -289,7 +292,7 @@ def plan(ctx):
               'every reachable state: crash before every effect of the run and after every byte prefix of every write (all prefixes for runs from the initial state - thorough: also from states one crash deep -, prefixes {0,1,n/2,n-1,n} from deeper states); '
               'states reached by a representative set of torn-write prefixes and by all other crashes are expanded again '
               'until no new state appears (fixpoint); distinct = reachable directory states; non-trivial = checkpointing on')
-  ctx.assumptions += ['crash = process death; a file holds exactly the bytes written before the crash (every prefix tried)',
+  ctx.assumptions += ['crash = process death; a file holds the bytes written before the crash (every prefix tried), or - for handles still open at the crash - only what had been flushed/closed (crash_lose: user-space buffers die with the process)',
                       'tf.summary is stubbed (no TensorBoard in the sandbox); event files are not observed',
                       'round-deterministic toy algorithm (state = hash chain over cohorts) with the real '
                       'UniformGetClientSampler; thorough adds real FedAvg']
